@@ -9,6 +9,7 @@ package dochandler
 import (
 	"fmt"
 	"net/http"
+	"net/url"
 	"strings"
 	"time"
 
@@ -105,12 +106,18 @@ var getID = func(req *http.Request) string {
 func getResolutionOptions(req *http.Request) ([]document.ResolutionOption, error) {
 	var resolutionOpts []document.ResolutionOption
 
-	versionID := req.URL.Query().Get(versionIDParam)
+	// req.URL.Query() silently drops the pairs it cannot decode: a request for a version would be answered with the latest state
+	query, err := url.ParseQuery(req.URL.RawQuery)
+	if err != nil {
+		return nil, fmt.Errorf("invalid query: %s", err.Error())
+	}
+
+	versionID := query.Get(versionIDParam)
 	if versionID != "" {
 		resolutionOpts = append(resolutionOpts, document.WithVersionID(versionID))
 	}
 
-	versionTime := req.URL.Query().Get(versionTimeParam)
+	versionTime := query.Get(versionTimeParam)
 	if versionTime != "" {
 		resolutionOpts = append(resolutionOpts, document.WithVersionTime(versionTime))
 	}
